@@ -597,6 +597,33 @@ def family_multi_parens():
     return [(False, s.encode()) for s in out]
 
 
+def family_tight_width():
+    """sources written TIGHTER or LOOSER than their canonical text (no blanks / doubled blanks around binary operators and after
+    commas), sized so that the source extent and the canonical width lie on different sides of the printer's size thresholds: the
+    100-column one-line function body limit (funcBody/bodySize via nodeSize) and the 40-column / ratio thresholds of exprList
+    alignment.  A printer that sizes a node from its source extent instead of its printed form decides differently in pass 2."""
+    out = []
+    names = "abcdefghijklmnopqrstuvwxyz"
+    for n in range(8, 34):
+        ops = [names[i % 26] for i in range(n)]
+        for glue in ("+", " + ", "  +  "):
+            body = glue.join(ops)
+            out += ["func f(a, b, c int) int { return %s }\n" % body,
+                    "func f(a,b,c int) int {return %s}\n" % body,
+                    "h := func(a, b int) int { return %s }\n" % body,
+                    "func (p *T) m(a int) (r int) { r = %s; return }\n" % body]
+    for n in range(4, 22, 2):
+        ops = [names[i % 26] for i in range(n)]
+        for glue in ("+", " + ", "  *  "):
+            e = glue.join(ops)
+            out += ["x := []int{\n\t%s,\n\t1,\n\t%s,\n}\n" % (e, e),
+                    "m := map[string]int{\n\t\"k\": %s,\n\t\"kkkkkk\": 1,\n\t\"kk\": %s, // c\n}\n" % (e, e),
+                    "m := {\n\t\"k\": %s,\n\t\"kkkkkk\": 1,\n\t\"kk\": %s,\n}\n" % (e, e),
+                    "f(%s,\n\t1,\n\t%s)\n" % (e, e),
+                    "type T struct {\n\ta [%s]int // c\n\tbbbbbb int // d\n}\n" % e]
+    return [(False, s.encode()) for s in out]
+
+
 def families():
     return (family_adjacency() + family_comment_layout() + family_comment_sizes() + family_control_clause() +
-            family_funclit_width() + family_comment_text_profiles() + family_labeled_empty() + family_multi_parens())
+            family_funclit_width() + family_comment_text_profiles() + family_labeled_empty() + family_multi_parens() + family_tight_width())
